@@ -82,4 +82,20 @@ PROPS = {
                         'seeded sampling, not exhaustive'],
         'components': COMPONENTS_STREAM,
     } for p in ('C01', 'C02', 'C10', 'C11', 'C12', 'C13', 'C14')},
+    'C05': {
+        'engine': 'rxnsim',
+        'quick': {'runs': 3000, 'steps': (15, 40), 'deadline_s': 60, 'chunk': 50, 'seed': 5},
+        'thorough': {'runs': 150000, 'steps': (15, 60), 'deadline_s': 600, 'chunk': 200, 'seed': 1005},
+        'rule': ('one evaluation = one simulated history in which reused, edited reaction objects (single / parallel / '
+                 'series / system, mol and wt basis, phase-tagged or not, defined on a package listing the chemicals '
+                 'in another order) are applied to 2-5 shared streams and to bare arrays, interleaved with view '
+                 'warming, flow edits, proxies and pickled restarts; distinct = distinct abstract states (per stream: '
+                 'class, phases, package, cached views, which phases hold material; per reaction: kind, basis, '
+                 'tagging, package, size); non-trivial = at least one reaction applied'),
+        'assumptions': ['balanced stoichiometries are drawn from 10 hand-checked base reactions and their rational '
+                        'combinations; atom table (C,H,O) is the harness own', 'seeded sampling'],
+        'components': {'real': ['thermosteam.reaction (Reaction, ParallelReaction, SeriesReaction, ReactionSystem, '
+                                'ReactionItem)', 'Stream / MultiStream / indexers / mass views'],
+                       'stub': ['reactor unit operations (tasks)', 'scheduler / PRNG']},
+    },
 }
